@@ -32,7 +32,31 @@ def validator_source(v):
     ps = ", ".join("p%d: %s" % (i + 1, ag.ty_str(t)) for i, t in enumerate(v["types"]))
     b = v["bodies"]
     return ag.render_types() + "\nvalidator v(%s) {\n  mint(_r: Data, _p: ByteArray, _tx: Data) {\n    %s\n  }\n\n  spend(_d: Option<Data>, _r: Data, _o: Data, _tx: Data) {\n    %s\n  }\n\n  else(_) {\n    %s\n  }\n}\n" % (
-        ps, ag.render(annot(b["mint"], v), 2), ag.render(annot(b["spend"], v), 2), ag.render(annot(b["else"], v), 2))
+        ps, ag.render(annot(b["mint"], v), 2), ag.render(annot(b["spend"], v), 2), ag.render(annot(b["else"], v), 2)) + SIBLINGS
+
+
+# other validators of the same module whose names extend the target's: applying a parameter to `v` must leave them alone
+SIBLINGS = """
+validator v_admin(q: Int) {
+  mint(_r: Data, _p: ByteArray, _tx: Data) {
+    q == 1
+  }
+
+  else(_) {
+    fail
+  }
+}
+
+validator vv(q: ByteArray, n: Int) {
+  spend(_d: Option<Data>, _r: Data, _o: Data, _tx: Data) {
+    q == #"00" && n == 2
+  }
+
+  else(_) {
+    fail
+  }
+}
+"""
 
 
 def annot(e, v):
@@ -61,7 +85,8 @@ def c18(tier):
         trans += r.generated
         src = validator_source(v)
         o = vlib.run_harness("blueprint_ops", stdin_lines=[{"id": 0, "dir": os.path.join(vlib.WORK, "bp", "c18_%s_%d" % (sig, os.getpid())), "src": src,
-                                                            "histories": [[{"op": e["op"], "d": e.get("d")} for e in h["hist"]] for h in hs], "ctxs": CTXS, "ops": []}],
+                                                            "histories": [[{"op": e["op"], "d": e.get("d")} for e in h["hist"]] for h in hs], "ctxs": CTXS, "ops": [],
+                                                            "select": {"module": "v", "validator": "v"}}],
                              timeout=3600)[0]
         if o.get("build") != "ok":
             if isinstance(o.get("build"), dict) and "panic" in o["build"]:
@@ -69,6 +94,11 @@ def c18(tier):
                 continue
             raise vlib.ToolError("C18: validator for %s does not build: %s\n%s" % (sig, json.dumps(o.get("build"))[:600], src[-600:]))
         bp0 = o["blueprint"]
+        mine = lambda x: x["title"].startswith("v.v.")
+        sib0 = [(x["title"], len(x.get("parameters", [])), x.get("hash"), x.get("compiledCode")) for x in bp0["validators"] if not mine(x)]
+        if len(sib0) < 4:
+            raise vlib.ToolError("C18: the sibling validators are missing from the blueprint")
+        bp0 = dict(bp0, validators=[x for x in bp0["validators"] if mine(x)])
         nparams = len(v["types"])
         for h, ho in zip(hs, o["histories"]):
             total += 1
@@ -77,7 +107,12 @@ def c18(tier):
             prev = None
             for j, (e, s) in enumerate(zip(h["hist"], ho["steps"])):
                 steps_total += 1
-                vs = s["validators"]
+                sibs = [(x["title"], x["parameters"], x["hash"], x["compiledCode"]) for x in s["validators"] if not mine(x)]
+                if sibs != sib0:
+                    rep.violation(key + "|sibling", dict(payload, step=j + 1, before=[[a, b2, c] for a, b2, c, _ in sib0], after=[[a, b2, c] for a, b2, c, _ in sibs]),
+                                  "step %d: another validator of the module changed although the parameter was applied to `v` only" % (j + 1))
+                    break
+                vs = [x for x in s["validators"] if mine(x)]
                 if s["r"] == "panic":
                     rep.violation(key + "|panic", dict(payload, step=j + 1, observed=s), "step %d (%s) panicked instead of being accepted / refused: %s" % (j + 1, e["op"], s.get("msg", "")[:200]))
                     break
